@@ -41,7 +41,7 @@ type HCase struct {
 	IfaceKeys bool      `json:"ifacekeys,omitempty"`
 }
 
-var fieldNames = []string{"a", "b", "c", "a.b", "a.c", "b.a", "a.b.c", "**.a", "**.b", "a.*"}
+var fieldNames = []string{"a", "b", "c", "a.b", "a.c", "b.a", "a.b.c", "**.a", "**.b", "a.*", "a.**.b", "b.**.a", "**.a.b", "a.**", "**.**.c", "c.**.a", "**.0"}
 
 func genEmbed(t *rapid.T, tr *gen.Tree) []string {
 	var out []string
@@ -385,10 +385,10 @@ func runHist(c HCase, r *runlog.R) error {
 
 var subHist = runlog.Register(&runlog.Sub[HCase]{
 	Name:    "reused-arguments",
-	Rule:    "histories of 2-6 calls (NewFrom; NewFrom+Merge; Unpack into a *Config target; Merge of a long-lived *Config source (which must read like a fresh one afterwards); Unpack of a long-lived configuration into long-lived targets that capture its sections in *Config fields under default/append/prepend tags, after which the configuration must unpack like a fresh one) over two dotted-key inputs whose object-valued entries may be embedded *Config values, with option lists drawn (subset and order) from a pool of Option values (global and per-field merge policies with plain, dotted and wildcard names, VarExp, a resolver, an Env config); a third of the steps repeat an earlier call exactly. Every step runs with inputs and Option values built once and shared by all steps, and again with freshly built equal arguments: both outcomes (canonical data or error kind) must be equal, repeated calls must repeat their outcome, and the embedded *Config values must still hold their own data afterwards. Non-trivial: at least two steps and the pool holds a per-field option or the input an embedded *Config. Distinct: hash of the case.",
+	Rule:    "histories of 2-6 calls (NewFrom; NewFrom+Merge; Unpack into a *Config target; Merge of a long-lived *Config source (which must read like a fresh one afterwards); Unpack of a long-lived configuration into long-lived targets that capture its sections in *Config fields under default/append/prepend tags, after which the configuration must unpack like a fresh one) over two dotted-key inputs whose object-valued entries may be embedded *Config values, with option lists drawn (subset and order) from a pool of Option values (global and per-field merge policies with plain, dotted and wildcard names - any-depth wildcards at the top, below named fields and below one another -, VarExp, a resolver, an Env config); a third of the steps repeat an earlier call exactly. Every step runs with inputs and Option values built once and shared by all steps, and again with freshly built equal arguments: both outcomes (canonical data or error kind) must be equal, repeated calls must repeat their outcome, and the embedded *Config values must still hold their own data afterwards. Non-trivial: at least two steps and the pool holds a per-field option or the input an embedded *Config. Distinct: hash of the case.",
 	Gen:     genHist,
 	Run:     runHist,
 	Journal: true,
 })
 
-func TestReusedArguments(t *testing.T) { subHist.Check(t, 30000, 1000000) }
+func TestReusedArguments(t *testing.T) { subHist.Check(t, 24000, 1000000) }
